@@ -49,8 +49,63 @@ def unwrap(n):
     return n
 
 
+def _rename_locals(j, suffix):
+    """robustness experiment (VSA_RENAME): consistently rename every local variable and parameter of a function"""
+    def rec(n):
+        if isinstance(n, dict):
+            if n.get("k") == "ref" and n.get("dk") in ("local", "param", "staticlocal") and n.get("name"):
+                n["name"] = n["name"] + suffix
+            if "decl" in n and "name" in n and n.get("k") is None and isinstance(n.get("name"), str) and n["name"]:
+                n["name"] = n["name"] + suffix
+            for k, v in n.items():
+                if k != "cfg":
+                    rec(v)
+        elif isinstance(n, list):
+            for v in n:
+                rec(v)
+    rec(j.get("body"))
+    for p in j.get("params", []):
+        if p.get("name"):
+            p["name"] = p["name"] + suffix
+    for ci in j.get("ctor_inits", []) or []:
+        rec(ci)
+
+
+def rshow(func, node, decl=None, depth=0):
+    """name-free rendering: parameters by position, locals by their (unique) definition"""
+    pidx = {p["decl"]: i for i, p in enumerate(func.j.get("params", []))}
+    defs = func.definitions()
+    rng = func._rng
+
+    def namer(n, depth=depth):
+        d = n.get("decl")
+        if d in pidx:
+            return "P%d" % pidx[d]
+        return "(%s)" % sig(d, depth + 1)
+
+    def sig(d, depth):
+        if depth > 5:
+            return "L"
+        if d in rng:
+            return "each:" + show(rng[d], 0, lambda x: namer(x, depth))
+        ds = defs.get(d, [])
+        if len(ds) == 1 and ds[0] is not None:
+            return "=" + show(ds[0], 0, lambda x: namer(x, depth))
+        if not ds:
+            return "undef"
+        return "multi:" + "|".join(sorted(("upd" if x is None else show(x, 0, lambda y: "V")) for x in ds))
+    if decl is not None:
+        if decl in pidx:
+            return "P%d" % pidx[decl]
+        return sig(decl, depth)
+    return show(node, 0, namer)
+
+
 class Func:
     def __init__(self, j, unit):
+        import os
+        if os.environ.get("VSA_RENAME"):
+            _rename_locals(j, os.environ["VSA_RENAME"])
         self.j = j
         self.unit = unit
         self.qname = j["qname"]
@@ -70,6 +125,17 @@ class Func:
                     self.decls[d["decl"]] = d
             elif n.get("k") == "rangefor" and n.get("var"):
                 self.decls[n["var"]["decl"]] = n["var"]
+        self._defs = None
+        from . import align, front
+        root = front.REPO.rstrip("/") + "/"
+        if os.environ.get("VSA_REFGEN"):
+            align.collect(self, root)
+        else:
+            try:
+                if align.align(self, root):
+                    self._defs = None
+            except Exception:
+                pass
 
     def _index(self, n, parent):
         if isinstance(n, dict):
@@ -86,6 +152,77 @@ class Func:
         elif isinstance(n, list):
             for v in n:
                 self._index(v, parent)
+
+    # ---- name-free signatures / renaming (see vsa/align.py) ---------------------------------
+    def decl_order(self):
+        out = []
+        for i, p in enumerate(self.j.get("params", [])):
+            q = dict(p)
+            q["_param"] = True
+            out.append((p["decl"], q))
+        seen = {p["decl"] for p in self.j.get("params", [])}
+        for n in walk(self.j["body"]):
+            k = n.get("k")
+            if k == "decl":
+                for d in n["decls"]:
+                    if d["decl"] not in seen:
+                        seen.add(d["decl"]); out.append((d["decl"], d))
+            elif k == "rangefor" and n.get("var") and n["var"]["decl"] not in seen:
+                seen.add(n["var"]["decl"]); out.append((n["var"]["decl"], n["var"]))
+            elif k == "lambda":
+                for lp in n.get("params", []):
+                    if lp["decl"] not in seen:
+                        seen.add(lp["decl"]); out.append((lp["decl"], lp))
+            elif k == "catch" and n.get("decl") is not None and n["decl"] not in seen:
+                seen.add(n["decl"]); out.append((n["decl"], n))
+        return out
+
+    def definitions(self):
+        """decl id -> list of defining expression nodes (decl init, assignments); None entries mark non-simple updates"""
+        if getattr(self, "_defs", None) is None:
+            defs = {}
+            rng = {}
+            for n in walk(self.j["body"]):
+                k = n.get("k")
+                if k == "decl":
+                    for d in n["decls"]:
+                        if d.get("init") is not None:
+                            defs.setdefault(d["decl"], []).append(d["init"])
+                elif k == "rangefor" and n.get("var"):
+                    rng[n["var"]["decl"]] = n.get("range")
+                elif k == "assign":
+                    t = unwrap(n["lhs"])
+                    if t.get("k") == "ref" and "decl" in t:
+                        defs.setdefault(t["decl"], []).append(n["rhs"] if n["op"] == "=" else None)
+                elif k == "opcall" and n.get("op") in ("=", "+=", "-=", "*=", "/=", "++", "--") and n.get("args"):
+                    t = unwrap(n["args"][0])
+                    if t.get("k") == "ref" and "decl" in t:
+                        defs.setdefault(t["decl"], []).append(n["args"][1] if n["op"] == "=" and len(n["args"]) > 1 else None)
+                elif k == "unop" and n.get("op") in ("++", "--"):
+                    t = unwrap(n["sub"])
+                    if t.get("k") == "ref" and "decl" in t:
+                        defs.setdefault(t["decl"], []).append(None)
+            self._defs, self._rng = defs, rng
+        return self._defs
+
+    def rename(self, mapping):
+        """mapping: decl id -> new name; applied to declarations and every reference"""
+        def rec(n):
+            if isinstance(n, dict):
+                if "decl" in n and n["decl"] in mapping and "name" in n and isinstance(n.get("name"), str):
+                    n["name"] = mapping[n["decl"]]
+                for k, v in n.items():
+                    if k != "cfg":
+                        rec(v)
+            elif isinstance(n, list):
+                for v in n:
+                    rec(v)
+        rec(self.j.get("body"))
+        for p in self.j.get("params", []):
+            if p["decl"] in mapping:
+                p["name"] = mapping[p["decl"]]
+        for ci in self.j.get("ctor_inits", []) or []:
+            rec(ci)
 
     @property
     def body(self):
@@ -244,8 +381,9 @@ def lit_value(n):
     return None
 
 
-def show(n, depth=0):
-    """compact, human readable rendering of an expression tree (for evidence samples and reports)"""
+def show(n, depth=0, namer=None):
+    """compact, human readable rendering of an expression tree (for evidence samples and reports);
+    namer(ref node) -> str overrides how references to variables are printed"""
     n = unwrap(n)
     if n is None:
         return "<null>"
@@ -254,7 +392,7 @@ def show(n, depth=0):
     if depth > 12:
         return "..."
     k = n.get("k")
-    s = lambda x: show(x, depth + 1)
+    s = lambda x: show(x, depth + 1, namer)
     if k in ("int", "float"):
         return n.get("text") or n["v"]
     if k == "str":
@@ -268,6 +406,8 @@ def show(n, depth=0):
     if k == "this":
         return "this"
     if k == "ref":
+        if namer is not None and n.get("dk") in ("local", "param", "staticlocal"):
+            return namer(n)
         return n.get("name") or n.get("qname", "?")
     if k == "member":
         if "base" not in n or unwrap(n["base"]).get("k") == "this":
